@@ -33,7 +33,7 @@ def _len_cases(tier):
 
 
 @contract(
-    "slnk_codec", ["C08", "C05", "C01"], cases=_len_cases,
+    "slnk_codec", ["C08", "C05", "C01", "C07"], cases=_len_cases,
     targets=["rv.project:Project.chunks", "rv.readers.module:ModuleReader.process_SLNK", "rv.readers.module:ModuleReader.process_SLnK"],
 )
 def slnk_codec(H, n):
